@@ -48,9 +48,13 @@ class _Budget:
 
 def _gen_q(rng, field, opts, counter):
     kind = rng.wpick(opts["qkinds"])
-    if field in ("xy", "xyc") and kind in ("str", "selfc", "selfg"):
+    if field in ("xy", "xyc") and kind in ("str", "selfc", "selfg", "selfk"):
         kind = "lambda"
+    if kind == "selfk" and field not in ("x", "y"):
+        kind = "selfc"
     q = {"f": field, "kind": kind}
+    if kind == "selfk":
+        q["k"] = rng.pick([1, 1.0, True])
     if kind == "str" and opts.get("str_plain"):
         q["expr"] = field
     elif kind == "str":
@@ -82,6 +86,8 @@ def _gen_params(rng, p, opts):
     if p == "Bin":
         num = rng.pick([1, 2, 3, 4, 5, 8][: max(1, min(6, opts["max_num"]))])
         num = min(num, opts["max_num"])
+        if opts.get("big_bins") and rng.chance(opts["big_bins"]):
+            num = rng.pick([256, 300])  # a histogram large enough for size-dependent fast paths
         if dy:
             low = _dy(rng, -2.0, 2.0, 0.25)
             bw = rng.pick([0.25, 0.5, 1.0, 2.0])
@@ -340,6 +346,12 @@ def _mk_q(q, node, qreg=None):
         # self-contained lambda: the field it reads is a default argument, so every such quantity shares one code
         # object (the loop idiom `[Sum(lambda d, f=f: d[f]) for f in fields]`)
         return eval('lambda d, f=%r: getattr(d[f], "values", d[f])' % f, {})
+    if kind == "selfk":
+        # same code object again, the default is a number: 1, 1.0 and True compare equal but are not the same default
+        # (an integer column times 1 stays integer, times 1.0 it becomes float)
+        # (one source text for all of them - `[Minimize(lambda d, k=k: d[F] * k) for k in scales]` - so the code objects are
+        # byte-identical and only the default differs)
+        return eval('lambda d, k=K: getattr(d[F], "values", d[F]) * k', {"K": q.get("k", 1), "F": f, "getattr": getattr})
     if kind == "selfg":
         # the field it reads is a global of the function: same code object, different referenced globals
         return eval('lambda d: getattr(d[FIELD], "values", d[FIELD])', {"FIELD": f, "getattr": getattr})
